@@ -199,6 +199,14 @@ impl Engine for PushSim {
                         std::fs::write(ws.join("f"), format!("{step}\n")).unwrap();
                         let (ok, msg) = jj(&[s("bookmark"), s("set"), s(n), s("-r"), s("@"), s("--allow-backwards")], &ws);
                         note!("jj new + bookmark set {n} ({})", if ok { "ok".to_string() } else { msg.lines().next().unwrap_or("").to_string() });
+                        // sometimes a tag of the *same name* is set as well: a push of
+                        // both then has two ref updates whose short names coincide, and
+                        // the remote may accept one and reject the other
+                        if ch.chance(1, 3) {
+                            let (ok, _) = jj(&[s("tag"), s("set"), s(n), s("-r"), s("@"), s("--allow-move")], &ws);
+                            note!("jj tag set {n} ({})", if ok { "ok" } else { "refused" });
+                            out.probe("tag_with_bookmark_name_set", 1);
+                        }
                     }
                 }
                 1 => {
@@ -243,7 +251,7 @@ impl Engine for PushSim {
                         break;
                     };
                     let refs_before = remote_refs(&remote);
-                    let mode = ch.weighted(&[3, 2, 1]);
+                    let mode = ch.weighted(&[3, 2, 1, 2]);
                     let mut args = vec![s("git"), s("push")];
                     let pushed: Vec<&str> = match mode {
                         0 => {
@@ -256,6 +264,16 @@ impl Engine for PushSim {
                             args.push(s("--all"));
                             args.push(s("--deleted"));
                             names.to_vec()
+                        }
+                        3 => {
+                            // bookmark and tag of the same name in one push
+                            let n = names[ch.choose(names.len())];
+                            args.push(s("--bookmark"));
+                            args.push(s(n));
+                            args.push(s("--tag"));
+                            args.push(s(n));
+                            out.probe("push_bookmark_and_tag_of_same_name", 1);
+                            vec![n]
                         }
                         _ => {
                             args.push(s("--deleted"));
